@@ -94,6 +94,19 @@ PROPS = {
         real_vs_stub=L_REAL,
         assumptions=SIM_ASSUME + ["backend Save/Remove are atomic at a crash; torn files only after an error-returning Save on non-atomic backends"],
     ),
+    "C31": dict(
+        pkg="cmd/restic", test="TestVerifC31", level="fault_enumeration", quick_s=45, thorough_s=600,
+        text="format-1 repositories with generated snapshots; `migrate upgrade_repo_v2` repeated with a crash after every applied backend mutation "
+             "(complete sweep) and with a failure before or after the effect of every Save/Remove of the config file, once, three times or for good, "
+             "on backends with and without atomic replace; afterwards the repository must have a config, open, restore every snapshot equal to its "
+             "source model, pass `check --read-data`, and accept a further backup",
+        note="one documented limitation is recorded as a known finding (non-atomic backends remove the config before saving the new one)",
+        design_ref="3 / C31",
+        rule="one run = configuration x generated snapshots x (every crash point + sampled failure positions/kinds/repeat counts in quick, all in thorough); "
+             "distinct = distinct event-log hash",
+        real_vs_stub=L_REAL,
+        assumptions=SIM_ASSUME + ["backend Save/Remove are atomic at a crash"],
+    ),
     "C15": dict(
         pkg="cmd/restic", test="TestVerifC15", level="exploration", quick_s=60, thorough_s=900,
         text="generated histories of 2-8 operations over backup, forget, prune, forget --prune, tag, rewrite --exclude, key add/passwd and repair "
